@@ -70,6 +70,9 @@ def structures(ap):
         (1, 4, '10.0.0.9', [w.nlri_ip(1, 4, '10.4.0.0', 16, p(1), (16, 17))]),
         (1, 128, '10.0.0.9', [w.nlri_ip(1, 128, '10.5.0.0', 16, p(1), (100,), RD0), w.nlri_ip(1, 128, '10.5.0.0', 16, p(1), (100,), RD1)]),
         (1, 1, '2001:db8::9', [N4('10.6.0.0', 16, p(1))]),  # RFC 8950
+        # another family behind the very next hop the NLRI field uses (10.0.0.1): two families, one next-hop address
+        (1, 4, '10.0.0.1', [w.nlri_ip(1, 4, '10.4.8.0', 24, p(1), (3,))]),
+        (1, 128, '10.0.0.1', [w.nlri_ip(1, 128, '10.5.8.0', 24, p(1), (100,), RD0)]),
         (2, 128, '2001:db8::1', [w.nlri_ip(2, 128, '2001:db8:5::', 48, None, (100,), RD0)]),
     ]
     MU = [
